@@ -367,6 +367,91 @@ def rule_references(rep, prog, eff):
     return n
 
 
+ARRAY = "volatile_memory::VolatileArrayRef"
+BYTE_SINKS = (
+    (re.compile(r"ptr::(mut_ptr|const_ptr)::(add|sub|wrapping_add|wrapping_sub|offset)$"), 1, "pointer offset"),
+    (re.compile(r"(Bitmap|BitmapSlice|WithBitmapSlice)::slice_at$|::slice_at$"), 1, "bitmap offset"),
+    (re.compile(r"Bitmap::mark_dirty$|::mark_dirty$"), 1, "dirty-mark offset"),
+    (re.compile(r"Bitmap::mark_dirty$|::mark_dirty$"), 2, "dirty-mark length"),
+    (re.compile(r"PtrGuard(Mut)?::(read|write|new)$"), -1, "guard length"),
+    (re.compile(r"VolatileSlice::(subslice|offset)$|VolatileMemory::get_slice$"), 1, "byte offset"),
+    (re.compile(r"VolatileSlice::subslice$|VolatileMemory::get_slice$"), 2, "byte count"),
+)
+
+
+def rule_element_units(rep, prog, eff):
+    """R1.7 — in the methods of the element array VolatileArrayRef<T> a quantity measured in ELEMENTS (it is compared with, or range-
+    checked against, `self.nelem`) must be scaled by size_of::<T>() before it is used as a BYTE quantity: an offset of the u8 base
+    pointer, an offset into the dirty bitmap, a guard / mark length, a byte offset or count of the underlying slice. (For T = u8 the
+    two units coincide; impls for VolatileArrayRef<u8> are exempt.)"""
+    from ..bounds import norm as bnorm
+    S = checks.Summaries(prog, eff)
+    n = 0
+    for b in prog.bodies:
+        root = prog.by_id.get(b.root, b) if b.kind == "Closure" else b
+        if root.self_adt != ARRAY or b.j.get("impl_derived") or b.kind == "Promoted":
+            continue
+        st = root.self_ty
+        targs = [x.s for x in st.peel().args()] if st else []
+        if targs and targs[0] in ("u8", "i8"):
+            continue
+        # ELEMENT-unit terms: operands of comparisons with self.nelem / len(self), and summands of checked sums compared with it
+        elem = set()
+
+        def is_nelem(t):
+            return (t[0] == 'field' and t[2] == 'nelem') or (t[0] == 'call' and canon(t[1]).endswith("VolatileArrayRef::len"))
+
+        def add_elem(t):
+            t = bnorm(t)
+            if t[0] in ('param', 'var') or (t[0] == 'field' and not is_nelem(t)):
+                elem.add(t)
+            if t[0] == 'bin' and t[1] in ('Add', 'Sub'):
+                add_elem(t[2]); add_elem(t[3])
+            if t[0] == 'call' and canon(t[1]).split("::")[-1] in ("min", "max", "saturating_sub", "saturating_add") and len(t[2]) == 2:
+                add_elem(t[2][0]); add_elem(t[2][1])
+            if t[0] == 'ok':
+                # the payload of a successful checked sum (core's checked_add or a local helper discovered as one): both summands
+                pr = checks.producer(t)
+                if pr[0] == 'call' and len(pr[2]) >= 2:
+                    ij = (1, 2) if canon(pr[1]).endswith("num::checked_add") else (S.checked_sum(pr[1]) if pr[1] in prog.by_id else None)
+                    if ij:
+                        add_elem(pr[2][ij[0] - 1]); add_elem(pr[2][ij[1] - 1])
+        for pos, t in b.terms():
+            if t["k"] != "switch":
+                continue
+            c = bnorm(b.term(t["discr"], pos)) if "discr" in t else None
+            if c is not None and c[0] == 'bin' and c[1] in ('Lt', 'Le', 'Gt', 'Ge', 'Eq', 'Ne'):
+                x, y = bnorm(c[2]), bnorm(c[3])
+                if is_nelem(x):
+                    add_elem(y)
+                if is_nelem(y):
+                    add_elem(x)
+        if not elem:
+            continue
+        for c in b.calls():
+            cn = canon(c.target or c.callee or "")
+            for rx, idx, what in BYTE_SINKS:
+                if not rx.search(cn):
+                    continue
+                args = c.args()
+                if idx == -1:
+                    idx = len(args) - 1
+                if idx >= len(args):
+                    continue
+                if "ptr::" in cn:
+                    # only offsets of a byte pointer are byte quantities
+                    tys = c.t.get("arg_tys") or []
+                    if not tys or not re.fullmatch(r"\*(mut|const) (u8|i8)", prog.types[tys[0]]["s"]):
+                        continue
+                a = bnorm(args[idx])
+                n += 1
+                bad = a in elem or (a[0] == 'bin' and a[1] in ('Add', 'Sub') and (bnorm(a[2]) in elem or bnorm(a[3]) in elem))
+                rep("R1.7.element_units", f"{b.key}|{cn.split('::')[-1]}#{idx}", not bad, c.where(),
+                    f"{what} `{tstr(deep_strip(args[idx]))[:60]}` of an element array: " + ("a byte quantity (not an element count / index used unscaled)" if not bad else
+                     "this value is compared with `nelem` elsewhere in the function, i.e. it counts ELEMENTS, but is used here as a number of BYTES without size_of::<T>()"))
+    return n
+
+
 def rule_bytevalued(rep, prog, eff):
     n = 0
     for nm, fn in (("from_slice", "align_to"), ("from_mut_slice", "align_to_mut")):
@@ -424,6 +509,8 @@ def run(ctx, progs):
         ctx.floor("R1.5.references", n, 3)   # the three reference-producing sinks (check_alignment itself is counted when it exists as a function)
         n = rule_bytevalued(ctx.ob, prog, eff)
         ctx.floor("R1.5.bytevalued", n, 4)
+        n = rule_element_units(ctx.ob, prog, eff)
+        ctx.floor("R1.7.unit_sinks", n, 1)
         n = rule_privacy(ctx.ob, prog)
         ctx.floor("R1.6.types", n, 10)
         # the discovered checks themselves (strictness R1.3)
